@@ -4,7 +4,7 @@ from . import joinlike, flow, c03, c01
 
 PROPERTY = "C04"
 LEVEL = "other"
-CONFIGS_QUICK = ["std"]
+CONFIGS_QUICK = ["std", "alloc"]
 CONFIGS_THOROUGH = ["std", "alloc", "core"]
 EXPLANATION = (
     "Data-flow and counter-discipline rules on the MIR of every join poll body (tuple arities 1-12, array, Vec): (POS) on a "
